@@ -33,6 +33,8 @@ type World struct {
 	fileOf         map[*ssa.Function]*ast.File
 	errTypes       []types.Type // tracked error types (repo)
 	loadSecs       float64
+	renames        map[*Contract][]string // rename-tolerance notes per contract (names.go)
+	rangeKeys      map[string]map[string]nameEntry // outermost function → baseline range-key variables (names.go)
 }
 
 type localDef struct {
@@ -112,6 +114,7 @@ func loadWorld(dir string, overlay map[string][]byte) (*World, error) {
 	if err := w.parseLibSpecs("/verif/libspec"); err != nil {
 		return nil, err
 	}
+	w.applyRenames()
 	w.instantiateGenericContracts()
 	return w, nil
 }
